@@ -30,7 +30,9 @@ const Rule = "case = (grammar, one transformation): description lines, the trans
 	"iteration —, threshold sweeps: one dimension (body length / index of a nullable symbol, non-terminals in a chain with the left-recursive cluster " +
 	"late or early in the order, terminals = alternatives = productions, prefix group, unit closure, nullable, unreachable symbols) at 63-70, thorough " +
 	"127-134, 255-262 and, on the implementation and the Go oracle only (hx.Case.NoModel: also unit closures and nullable chains from 127 and chains " +
-	"from 255 up, where Lean's decision procedures dominate), 1023-1025) plus helper cases (Verify() and " +
+	"from 255 up, where Lean's decision procedures dominate), 1023-1025; second round as in C08: every size 0-200 of the cheap dimensions, heads / terminals on one probe path of the 31- / 67-slot table " +
+	"(gx.SameBucketNames), special shapes at the sweep sizes, terminals named like upcoming fresh names; of the families with 130+ non-terminals the quick " +
+	"tier runs the middle size only and chains of more than 96 non-terminals mostly oracle-only) plus helper cases (Verify() and " +
 	"IsCNF() as error lists, AnyMatch / AllMatch / SelectMatch, Equal, the comparators and hashes, on valid and on malformed " +
 	"grammars) and `parsers` on malformed grammars (the caller's grammar stays unchanged whether the constructor returns or " +
 	"panics; the Model predicts which for predictive.BuildParsingTable); non-trivial = the input did not already satisfy the op's post-condition (or, for `parsers`, " +
@@ -187,6 +189,11 @@ func Exec(c hx.Case) hx.Result {
 	tags := map[string]bool{}
 	for i := 0; i < p.NDef; i++ {
 		res.Outs = append(res.Outs, "ok")
+	}
+	if len(p.Ops) > 0 && !c08.Builds(g) {
+		res.Outs = append(res.Outs, "hang")
+		bad(p.NDef, "", "NewCFG did not return for this grammar")
+		return res
 	}
 	valid, _ := c08.Valid(g)
 	inScope := valid
@@ -447,7 +454,17 @@ func Main(run *hx.Run) {
 	all = append(all, c08.BucketCases()...)                        // heads / terminals on one probe path of the 31-slot (and 67-slot) table
 	all = append(all, c08.ShapeCases(run.Thorough())...)           // each transformation's special shapes at the sweep sizes
 	all = append(all, c08.DenseCases(run.Seed, run.Thorough())...) // every size from 0 to 200 of the cheap dimensions
+	heavy := map[string]int{}
 	for _, sc := range all {
+		// Lean's decision procedures for the post-conditions are cubic in the number of non-terminals: of the families with 130+
+		// non-terminals the quick tier runs the middle size (t of t-1, t, t+1) only; C08 runs all of them on every check
+		if !run.Thorough() && (strings.HasPrefix(sc.Mix, "size-nullable") || strings.HasPrefix(sc.Mix, "size-unit-closure") ||
+			strings.HasPrefix(sc.Mix, "shape-unit-chain") || strings.HasPrefix(sc.Mix, "shape-print-alike-6")) {
+			heavy[sc.Mix]++
+			if heavy[sc.Mix]%3 != 2 {
+				continue
+			}
+		}
 		// threshold sweeps: one dimension at 63 / 64 / 65 (thorough: up to 257), everything else small
 		for _, op := range sc.Ops {
 			c := caseFor(sc.G, sc.Mix, op)
